@@ -191,7 +191,7 @@ func firstRepoFrame(stack string) string {
 	lines := strings.Split(stack, "\n")
 	for i, l := range lines {
 		t := strings.TrimSpace(l)
-		if strings.HasPrefix(t, "/repo/") {
+		if strings.HasPrefix(t, repoPrefix) {
 			// previous line holds the function name
 			fn := ""
 			if i > 0 {
